@@ -140,12 +140,15 @@ def fskOokReadPayloadBatch (fuel : Nat) (readBatch : Bool) : DM Unit := do
   -- a packet that does not fit into the buffer is not read
   if h.expected.toNat > h.packet.length then fail SX127X_ERR_INVALID_ARG else
   let batch : Nat := HALF_MAX_FIFO_THRESHOLD - 1
-  if readBatch ∧ h.received.toNat + batch < h.expected.toNat then do
-    -- destination range is checked before the transfer, as the C writes through the pointer
-    if h.received.toNat + batch ≤ h.packet.length then pure () else ub .oobPacket
-    let data ← bread REGFIFO batch
-    packetCopy h.received.toNat data
-    modH fun h => { h with received := h.received + UInt16.ofNat batch }
+  if readBatch then
+    -- FIFO level: full batches only; the tail of the packet is left for payload-ready
+    if h.received.toNat + batch < h.expected.toNat then do
+      -- destination range is checked before the transfer, as the C writes through the pointer
+      if h.received.toNat + batch ≤ h.packet.length then pure () else ub .oobPacket
+      let data ← bread REGFIFO batch
+      packetCopy h.received.toNat data
+      modH fun h => { h with received := h.received + UInt16.ofNat batch }
+    else pure ()
   else if h.received = 0 ∧ h.expected.toNat ≤ remaining then do
     if h.expected.toNat ≤ h.packet.length then pure () else ub .oobPacket
     let data ← bread REGFIFO h.expected.toNat
